@@ -9,6 +9,7 @@ package c01
 
 import (
 	"fmt"
+	"os"
 	"sort"
 	"strings"
 
@@ -32,13 +33,24 @@ func init() {
 			"(variable read / variable increment / call of a closure in scope) up to the deviation bound of the tier, plus every " +
 			"quoted datum of the datum table in every context of the context table; each program is rendered to text, read and " +
 			"evaluated by slip in a fresh scope, and its value (converted by Go type switch) and its trace of side effects must " +
-			"equal those of the independent reference evaluator. A case is non-trivial when it composes at least two form kinds " +
-			"(>= 2 deviations) or, for quote cases, when the quoted datum sits inside another form",
+			"equal those of the independent reference evaluator. Re-entrant family: every multi-part form of the core language in the body " +
+			"of a function (defun / lambda held in a variable / called through a designator / through a second function) with a call of " +
+			"that very function in every evaluated position in turn (and in every pair of positions, and in all at once), a depth counter " +
+			"ending the recursion after 1 or 2 nested inner activations that run the same form to completion, cold and after a completed " +
+			"warm-up call. Scenario family: complete programs about special variables, closures over special variables, closures made in " +
+			"loops and setq from closures, with the set of outcomes the language definition and slip's documentation both allow. Quote: " +
+			"data written in every reader syntax, returned through every binding / call route, evaluated again (same object), taken apart. " +
+			"A case is non-trivial when it composes at least two form kinds " +
+			"(>= 2 deviations), is a re-entrant or scenario case, or, for quote cases, when the quoted datum sits inside another form",
 		Assumptions: []string{
 			"the reference evaluator implements the Common Lisp rules for the core forms (order of evaluation, lexical scoping, multiple values)",
 			"programs are closed, well typed, free of non-local exits (C07), redefinition (C08), lambda-list keywords (C04) and large integers (C05)",
-			"implementation-dependent points are not exercised: closures never capture a dolist/dotimes variable beyond its iteration, " +
-				"dolist/dotimes variables are never assigned, literal data is never modified, (values ...) is written only as the value of a function body or as the values-form of multiple-value-bind (slip documents that use)",
+			"implementation-dependent points: a closure that captures a dolist/dotimes variable beyond its iteration may see one shared binding or one per iteration (both accepted, scenario family only); " +
+				"dolist/dotimes variables are never assigned, literal data is never modified, (values ...) is written only as the value of a function body or as the values-form of a multiple-value consumer (slip documents that use)",
+			"S2: a closure over a SPECIAL variable: the language definition reads the dynamic value at call time, the property statement says a closure sees the binding it was created in, slip documents nothing: both outcomes accepted (accepted:special-captured)",
+			"S2: case compares with equal in slip (documented) and eql in the language definition: keys are chosen so that both agree (a key that is a list never equals the integer key; nil in the place of the keys is only used with a non-nil key); " +
+				"the value of psetq is never used (slip documents the last value, the language definition nil); setq of a variable bound nowhere has no meaning in the language definition: only a Go fault or a hang fails",
+			"S2: the datum of a backquote form is not fixed by the language definition: only not-evaluated / no fault / same on every evaluation is demanded; one quote form evaluated twice gives the identical (eq) object, for numbers and characters an eql one",
 			"S2: where Common Lisp reduces a stored or passed-on result to its primary value (init forms of let/let*/do, non-final forms of or, results collected by mapcar) " +
 				"slip may keep the whole values object (its own tests rely on a variable holding one); such outcomes are accepted and counted (accepted:...)",
 			"S2: a quoted datum is compared by structure and type with symbol case folded; an unsuffixed float may be single or double; the ' shorthand inside quoted data is not exercised",
@@ -47,7 +59,13 @@ func init() {
 		Enumerate: enumerate,
 		Exec:      exec,
 		Required: []string{"closure-call", "closure-updates-captured-variable", "branch-skipped", "shadowing-binding", "setq-outer-binding",
-			"loop-second-iteration", "recursive-call", "mv-bind-2", "traced-args>=2", "nested-forms>=2", "env-leaf", "quote-compound", "quote-evaluated-twice"},
+			"loop-second-iteration", "recursive-call", "mv-bind-2", "traced-args>=2", "nested-forms>=2", "env-leaf", "quote-compound", "quote-evaluated-twice",
+			// round 8
+			"psetq", "mv-list", "mv-call", "mv-setq", "mv-prog1", "nth-value", "mapc", "maplist",
+			"reentrant:form-entered-again-while-active", "reentrant:several-positions", "reentrant:at=do-step", "reentrant:at=call-argument",
+			"reentrant:carrier=lambda-in-variable", "reentrant:mode=warm-full", "reentrant:depth=2",
+			"scenario:special-dynamic-binding-seen", "scenario:special-binding-undone", "scenario:non-local-exit",
+			"quote-same-object-on-the-next-evaluation", "quote-datum-taken-apart", "quote-shorthand-inside-quoted-data", "quote-empty-list-is-nil"},
 		Bound:    bound,
 		Selftest: selftest,
 	})
@@ -64,7 +82,9 @@ type tierPlan struct {
 func plans(tier string) []tierPlan {
 	if tier == engine.Thorough {
 		return []tierPlan{
-			{"all templates at every level, D<=3", genOpts{}, []int{1, 2, 3}},
+			{"all templates at every level, D<=2", genOpts{}, []int{1, 2}},
+			{"all but the variant templates at every level, D=3", genOpts{rankAt: []int{0}}, []int{3}},
+			{"root from all templates (variants included), second and third level from the core subset, D=3", genOpts{rankAt: []int{-1, 1}}, []int{3}},
 			{"root from all templates, lower levels from the spine subset, D=4", genOpts{rankAt: []int{0, 2}}, []int{4}},
 			{"every level from the deep subset, D=5", genOpts{rankAt: []int{3}}, []int{5}},
 			{"spines (one filled hole per form, i.e. nesting depth 6) over the deepest subset, D=6", genOpts{rankAt: []int{4}, spine: true}, []int{6}},
@@ -72,12 +92,32 @@ func plans(tier string) []tierPlan {
 	}
 	return []tierPlan{
 		{"all templates at every level, D<=2", genOpts{}, []int{1, 2}},
-		{"root from all templates, second and third level from the core subset, D=3", genOpts{rankAt: []int{0, 1}}, []int{3}},
+		{"root from all templates, second and third level from the core subset, D=3", genOpts{rankAt: []int{-1, 1}}, []int{3}},
 	}
 }
 
+func forgetFunction(name string) { slip.VerifForgetFunction(slip.CurrentPackage, name) }
+
+// onlyFamilies: development aid (C01_ONLY=q,r,s,p restricts the enumeration to some families; bin/check never
+// sets it and Bound says so when it is set).
+func onlyFamilies(f string) bool {
+	only := os.Getenv("C01_ONLY")
+	return only == "" || strings.Contains(","+only+",", ","+f+",")
+}
+
 func enumerate(tier string, emit func(string)) {
-	enumerateQuotes(emit)
+	if onlyFamilies("q") {
+		enumerateQuotes(emit)
+	}
+	if onlyFamilies("r") {
+		enumerateReentrant(tier, emit)
+	}
+	if onlyFamilies("s") {
+		enumerateScenarios(emit)
+	}
+	if !onlyFamilies("p") {
+		return
+	}
 	for _, pl := range plans(tier) {
 		g := newGenerator(pl.opts)
 		for _, d := range pl.devs {
@@ -92,14 +132,22 @@ func bound(tier string) string {
 		parts = append(parts, pl.what)
 	}
 	var n [5]int
+	variants := 0
 	for _, t := range templates {
 		for r := 1; r <= t.rank; r++ {
 			n[r]++
 		}
+		if t.rank < 0 {
+			variants++
+		}
 	}
-	return fmt.Sprintf("%d templates (subsets: core %d, spine %d, deep %d, deepest %d), nesting depth <= 6, deviations D counted including the root form "+
-		"(a deviation = a hole filled with a template or an environment leaf): %s; quote: %d data x %d contexts x 2 notations",
-		len(templates), n[1], n[2], n[3], n[4], strings.Join(parts, "; "), len(datums), len(quoteCtxs))
+	restricted := ""
+	if only := os.Getenv("C01_ONLY"); only != "" {
+		restricted = "RESTRICTED DEVELOPMENT RUN (C01_ONLY=" + only + "), not the tier: "
+	}
+	return restricted + fmt.Sprintf("%d templates (%d of them variant templates; subsets: core %d, spine %d, deep %d, deepest %d), nesting depth <= 6, deviations D counted including the root form "+
+		"(a deviation = a hole filled with a template or an environment leaf): %s; %s; %s; %s",
+		len(templates), variants, n[1], n[2], n[3], n[4], strings.Join(parts, "; "), quoteBound(), reentrantBound(tier), scenarioBound())
 }
 
 // ---------------------------------------------------------------- running
@@ -138,16 +186,17 @@ func runSlip(text string, limit int) (o observation) {
 }
 
 type verdict struct {
-	ok       bool
-	kind     string // failure kind
-	text     string
-	want     string
-	wantTr   []string
-	got      observation
-	lenient  bool   // accepted only because secondary values kept by slip are ignored (S2)
-	skip     string // reference could not evaluate (budget / generator bug)
-	hits     map[string]int
-	refSteps int
+	ok         bool
+	kind       string // failure kind
+	text       string
+	want       string
+	wantTr     []string
+	got        observation
+	lenient    bool   // accepted only because secondary values kept by slip are ignored (S2)
+	acceptedAs string // which accepted alternative of the reference matched (scenario family)
+	skip       string // reference could not evaluate (budget / generator bug)
+	hits       map[string]int
+	refSteps   int
 }
 
 func sameTrace(a, b []string) bool {
@@ -451,6 +500,10 @@ func exec(spec string) (res engine.Result) {
 		return
 	case strings.HasPrefix(spec, "q|"):
 		return execQuote(spec)
+	case strings.HasPrefix(spec, "r|"):
+		return execReentrant(spec)
+	case strings.HasPrefix(spec, "s|"):
+		return execScenario(spec)
 	case strings.HasPrefix(spec, "p|"):
 	default:
 		res.Fail("harness:bad-spec", spec)
